@@ -26,6 +26,8 @@ def cells(tier):
         "M2/1|gac": [[M("M", 2, 1)], [GAC]],
         "A2+cgroupA|lock": [[A("A", 2), cgroup("A")], [LOCK]],
         "A1|M2/2|gac": [[A("A", 1)], [M("M", 2, 2)], [GAC]],
+        "M0/1 e,flush|A1": [[M("E", 0, 1, name="e"), FLUSH], [A("A", 1)]],
+        "M2/1 allbad,flush": [[M("E", 2, 1, name="e", bad=[0, 1]), FLUSH]],
     }
     for size in ([1, 2] if q else [0, 1, 2, "inf"]):
         for hn, h in H.items():
